@@ -279,6 +279,9 @@ def _none(lua):
 
 
 FIND_ENSURES = """self.scopes@.len() == 0 ==> r is None,
+            // the traversal model: the visitor is fed the trace m_visit from the innermost scope around the position (needs links_wf only)
+            self.scopes@.len() > 0 ==> exists|l: int| is_leaf(self.scopes@, l, position.raw as int)
+                && r == run::<FindVisitor>((self, name@, None::<&LuaDecl>), m_visit(self.scopes@, l, position.raw as int, true)).0.2 /*@C13.lookup.model*/,
             // Some(d): d is a declaration of the tree with that name that Lua's scoping makes visible at the position
             (tree_wf(self.scopes@) && !in_header(self.scopes@, position.raw as int)) ==> %(found)s /*@C13.lookup.returns-the-visible-declaration*/,
             // None: no declaration with that name is visible there (the caller falls back to the global)
@@ -305,8 +308,8 @@ FIND_PROOF = """proof {
             assert(__v.state() == r0.0);
             if tree_wf(ss) {
                 lemma_trace_is_visible(ss, l, p);
-                assert forall|id: LuaDeclId| true implies (visible(ss, id, p, true) ==> #[trigger] visible(ss, id, p, false))
-                    && (!in_header(ss, p) ==> (visible(ss, id, p, false) ==> visible(ss, id, p, true))) by { lemma_lua_vs_code(ss, id, p); }
+                assert forall|id: LuaDeclId| #[trigger] visible(ss, id, p, true) implies visible(ss, id, p, false) by { lemma_lua_vs_code(ss, id, p); }
+                assert forall|id: LuaDeclId| !in_header(ss, p) && #[trigger] visible(ss, id, p, false) implies visible(ss, id, p, true) by { lemma_lua_vs_code(ss, id, p); }
                 if r0.1 {
                     // stopped: at the first element that is a declaration of the tree with that name; it is in the trace, hence visible
                     let j = choose|j: int| 0 <= j < t.len() && find_hit(self, name@, t[j]) && r0.0.2 == Some(&self.decls@[t[j]->Decl_0])
@@ -378,8 +381,8 @@ ENV_PROOF = """proof {
                         assert(id2 == id);
                     }
                 }
-                assert forall|id: LuaDeclId| true implies (visible(ss, id, p, true) ==> #[trigger] visible(ss, id, p, false))
-                    && (!in_header(ss, p) ==> (visible(ss, id, p, false) ==> visible(ss, id, p, true))) by { lemma_lua_vs_code(ss, id, p); }
+                assert forall|id: LuaDeclId| #[trigger] visible(ss, id, p, true) implies visible(ss, id, p, false) by { lemma_lua_vs_code(ss, id, p); }
+                assert forall|id: LuaDeclId| !in_header(ss, p) && #[trigger] visible(ss, id, p, false) implies visible(ss, id, p, true) by { lemma_lua_vs_code(ss, id, p); }
             }
         }"""
 
@@ -429,6 +432,30 @@ UNIT = {
             'get_scope', ret='r',
             ensures='r == (if (scope_id.id as int) < self.scopes@.len() { Some(&self.scopes@[scope_id.id as int]) } else { None::<&LuaScope> })'),
 
+        # ---- the writers of the tree (its API; the builder that calls them walks rowan ASTs and stays outside) ---------------------------
+        'LuaScope::new': fn('new', 'LuaScope', SCOPE, ret='r',
+                            ensures='r.parent is None, r.children@.len() == 0, r.range == range, r.kind == kind, r.id == id'),
+        'LuaScope::add_decl': fn('add_decl', 'LuaScope', SCOPE,
+                                 ensures='final(self).children@ == old(self).children@.push(ScopeOrDeclId::Decl(decl)), final(self).parent == old(self).parent, '
+                                         'final(self).range == old(self).range, final(self).kind == old(self).kind, final(self).id == old(self).id /*@C13.tree.decls-appended-in-order*/'),
+        'LuaScope::add_child': fn('add_child', 'LuaScope', SCOPE,
+                                  ensures='final(self).children@ == old(self).children@.push(ScopeOrDeclId::Scope(child)), final(self).parent == old(self).parent, '
+                                          'final(self).range == old(self).range, final(self).kind == old(self).kind, final(self).id == old(self).id /*@C13.tree.scopes-appended-in-order*/'),
+        'LuaScope::set_parent': fn('set_parent', 'LuaScope', SCOPE,
+                                   ensures='final(self).parent == parent, final(self).children == old(self).children, '
+                                           'final(self).range == old(self).range, final(self).kind == old(self).kind, final(self).id == old(self).id'),
+        'LuaDeclarationTree::create_scope': fn(
+            'create_scope', ret='r',
+            requires='old(self).scopes@.len() < u32::MAX, ids_are_indices(old(self).scopes@)',
+            ensures="""r.id as int == old(self).scopes@.len(), final(self).scopes@.len() == old(self).scopes@.len() + 1,
+            final(self).scopes@.drop_last() == old(self).scopes@, final(self).scopes@.last().parent is None, final(self).scopes@.last().children@.len() == 0,
+            final(self).scopes@.last().range == range && final(self).scopes@.last().kind == kind,
+            ids_are_indices(final(self).scopes@) /*@C13.tree.ids-are-indices*/, final(self).decls == old(self).decls""",
+            proof=[(r'scope_id\s*\}\s*$', 'before', 'proof { assert(self.scopes@.drop_last() =~= old(self).scopes@); }')]),
+        'LuaDeclarationTree::add_decl': fn(
+            'add_decl', ret='r', requires='keys_ok()',
+            ensures="""r == did(&decl), final(self).decls@ == old(self).decls@.insert(did(&decl), decl) /*@C13.tree.decl-key-is-its-id*/,
+            final(self).scopes == old(self).scopes"""),
         # ---- the traversal ------------------------------------------------------------------------------------------------------------
         'LuaDeclarationTree::visit_child_scope': fn(
             'visit_child_scope', ret='r', rules=['c13-fnmut-visitor-bound', ('c13-fnmut-visitor-call', {'count': 2})],
@@ -456,16 +483,26 @@ UNIT = {
             'visit_visible_decls', rules=['c13-fnmut-visitor-bound'],
             requires=WF + ', ' + SC + ', old(f).inv()',
             ensures='final(f).inv(), final(f).state() == run::<F>(old(f).state(), m_visit(self.scopes@, scope.id.id as int, position.raw as int, is_entry)).0 /*@C13.visit.model*/',
-            decreases='(if is_entry { 1int } else { 0int }), (if is_entry { self.scopes@.len() - scope.id.id } else { scope.id.id as int })',
+            decreases='(if is_entry { 1int } else { 0int }), (if is_entry { self.scopes@.len() - scope.id.id } else { scope.id.id as int }) /*@C13.lookup.total*/',
             body_first=VISIT_FIRST),
         'LuaDeclarationTree::find_scope': fn(
             'find_scope', ret='r', rules=[('c13-filter-map-find-loop', {'ty': 'Option<&LuaScope>'})],
             requires=WF,
             ensures="""self.scopes@.len() == 0 ==> r is None,
             self.scopes@.len() > 0 ==> (r matches Some(s) && (s.id.id as int) < self.scopes@.len() && *s == self.scopes@[s.id.id as int]
-                && is_leaf(self.scopes@, s.id.id as int, position.raw as int)) /*@C13.find-scope.innermost*/""",
+                && is_leaf(self.scopes@, s.id.id as int, position.raw as int)) /*@C13.find-scope.innermost*/,
+            // ... and, in a well-formed tree, every scope around the position is that scope or one of its ancestors
+            tree_wf(self.scopes@) ==> (r matches Some(s) && forall|a: int| 0 <= a < self.scopes@.len() && #[trigger] inside(self.scopes@, a, position.raw as int)
+                ==> is_anc(self.scopes@, a, s.id.id as int)) /*@C13.find-scope.innermost.all-enclosing-scopes-are-ancestors*/""",
+            body_first='proof { if tree_wf(self.scopes@) { wf_basic(self.scopes@); } }',
             loops={0: FIND_OUTER, 1: FIND_INNER},
-            proof=[(r'let child = &__fs\[__fk\];', 'before',
+            proof=[(r'Some\(scope\)\s*\}\s*$', 'before', '''proof {
+            if tree_wf(self.scopes@) {
+                assert forall|a: int| 0 <= a < self.scopes@.len() && #[trigger] inside(self.scopes@, a, position.raw as int)
+                    implies is_anc(self.scopes@, a, scope.id.id as int) by { lemma_leaf_innermost(self.scopes@, scope.id.id as int, a, position.raw as int); }
+            }
+        }'''),
+                   (r'let child = &__fs\[__fk\];', 'before',
                     'proof { let c = kids(self.scopes@, scope.id.id as int)[__fk as int]; assert(c == scope.children@[__fk as int]); }')]),
         # ---- the two visitor closures (statement slices) and their hosts ---------------------------------------------------------------
         'LuaDeclarationTree::find_local_decl::visitor': {
@@ -500,9 +537,66 @@ UNIT = {
             proof=[(r'result = __v\.result;', 'after', ENV_PROOF)]),
     },
     'allow': [r'external_body', r'uninterp'],
-    'min_obligations': 10,
-    'trusted': [],
-    'not_covered': [],
+    'min_obligations': 120,
+    'timeout': 900,
+    'trusted': [
+        'ASSUMPTION tree_wf (scope_spec.rs, spelled out there clause by clause; derived from compilation/analyzer/decl/{mod,stats,exprs}.rs, which walk rowan ASTs '
+        'and stay outside the unit): non-empty; ids are indices, parent id < child id, parent <-> child links agree (links_wf: also guaranteed by create_scope / '
+        'add_child_scope themselves); every non-root scope is listed by its parent; ranges are ranges, child range inside parent range, sibling scopes disjoint; '
+        'children of every scope but a LocalOrAssignStat one are in source order (each ends before the next starts; a declaration occupies >= 1 char); a Repeat scope '
+        'holds only scopes, its first child is the body block (Normal) which holds no declaration directly; statement scopes (LocalOrAssignStat / FuncStat / MethodStat) '
+        'are not empty, are direct children of a Normal scope (block) and their declarations are name tokens inside the statement; a function statement holds at most one '
+        'declaration, in front of its closure, and starts before the closure; the names of one local/assignment statement are listed in source order; the declarations '
+        'held by a scope lie after the scope\'s previous sibling and inside its parent (not necessarily inside the scope: implicit `self` sits at the colon). '
+        'Satisfiable: proved for three concrete trees (witness.rs). Holds for trees of syntactically valid programs; the no-panic / termination / traversal-model '
+        'clauses need links_wf only',
+        'ASSUMPTION (reading of "body"): the BODY of a declaration-holding Normal / ForRange scope (closure, numeric for, generic for) is its LAST child scope. The tree '
+        'does not record which child is the body; for a for-loop whose body is EMPTY the parser creates no Block node, so if such a loop has a closure in its header the '
+        'specification takes that closure for the body (the deviation of the real code there is the one of the finding C13.lookup.loop-variable-not-visible-in-loop-header, '
+        'but that corner is not flagged)',
+        'ASSUMPTION decls_wf (only for C13.env.exactly-visible): every declaration id listed in a scope is a key of `decls` and decls[id].get_id() == id '
+        '(DeclAnalyzer::add_decl; the key half is proved for LuaDeclarationTree::add_decl: C13.tree.decl-key-is-its-id)',
+        'LuaDecl is opaque: get_name / get_id / is_implicit_self are uninterpreted functions of the declaration (external_body shims, weakest contract of a pure getter)',
+        'hash-map key model for LuaDeclId (obeys_key_model, a precondition: derived Eq + Hash over two u32 newtypes); hashbrown -> std HashMap (get / insert only, no iteration)',
+        '`impl From<&LuaDeclId> for ScopeOrDeclId` is transcribed (the extractor cannot address the 3rd of 4 impl blocks with one header name); unit.py compares it with scope.rs on every run',
+        'text-size shim (units/common/textsize.rs); plain-Rust Hash / Debug impls for the shim so that the extracted derives compile',
+        'rewrite rules: c13-fnmut-visitor-bound / -call (FnMut(ScopeOrDeclId) -> bool as the unit trait DeclVisitor: a deterministic state machine step/stops), '
+        'c13-closure-visitor + c13-captured-assign (closure conversion of the two visitor closures; bodies extracted as statement slices, the rule checks body == slice), '
+        'c13-filter-map-find-loop, c13-rposition-loop, c13-rev-range (std docs of the adapters), letchain-nest, is-some-and; the glue `DeclVisitor::visit` impls of '
+        'FindVisitor / EnvVisitor (template) forward to the slices',
+        'the three `witness_*` functions (witness.rs) are verified TESTS written by hand: they build the tree of a 2-line Lua program (hand-traced through the builder) and '
+        'call the real find_local_decl',
+    ],
+    'not_covered': [
+        'the builder: compilation/analyzer/decl/{mod,stats,exprs}.rs (walk_node_enter / leave, analyze_*_stat, analyze_closure_expr): that it produces a tree_wf / decls_wf tree '
+        'is ASSUMED; LuaDeclarationTree::{add_decl_to_scope, add_child_scope} (Vec::get_mut is outside the dialect)',
+        'the global fallback (LuaGlobalIndex, SemanticModel::find_decl), the mapping token -> (name, position) and every LSP handler (definition, hover, references, completion)',
+        'whether a returned declaration is a Local / Param / ImplicitSelf or an in-file Global declaration (`x = 1` creates a Global LuaDecl that the tree treats like a local)',
+        'trees of programs with syntax errors (tree_wf may fail; no-panic / termination / model clauses still hold: they need links_wf only)',
+        'order of get_env_decls is stated on the trace (C13.env.closest-first: the list is env_list of an `ordered` trace); repetitions are allowed by `ordered` and do occur '
+        '(names of a repeat body, name of a local function seen from its own body are listed twice; consumers dedupe by name)',
+    ],
+    'samples': [
+        'find_local_decl(name, pos) = Some(d): d is a declaration of the tree named `name` with visible(tree, d, pos) [Lua reading], outside loop/function headers',
+        'find_local_decl(name, pos) = None: no declaration named `name` is visible at pos (Lua reading) -> the caller falls back to the global',
+        'find_local_decl returns the visible declaration with the LARGEST position (shadowing), if no statement declares the name twice',
+        'find_scope(pos) = the scope around pos none of whose children is around pos; every scope around pos is it or an ancestor (lemma_leaf_innermost)',
+        'visit_visible_decls / search_scope_children / visit_child_scope == the functional model m_visit / m_search / m_expose, terminate, under links_wf only',
+    ],
+    # genuine deviations of the real code from the property (each one: a failing clause + a verified witness on a concrete tree)
+    'findings': [
+        {'clause': 'C13.lookup.loop-variable-not-visible-in-loop-header (+ C13.env.loop-variable-not-visible-in-loop-header)',
+         'what': 'the loop variable of a NUMERIC for is visible in the loop header: ForStat gets a scope of kind Normal, and an entry at a Normal scope searches '
+                 'its own declarations. `local n = 10  for n = 1, n do f() end`: find_local_decl("n", offset of the limit `n` = 24) returns the loop variable '
+                 '(declared at 17); Lua selects `local n` (6). witness_numeric_for_header (verified)'},
+        {'clause': 'C13.lookup.loop-variable-not-visible-in-loop-header',
+         'what': 'closures in the header of a numeric OR generic for see the loop variables: the non-entry visit of a ForRange / Normal scope searches its own '
+                 'declarations. `local k = 1  for k, v in f(function() return k end) do g() end`: find_local_decl("k", 44) returns the loop variable k (16); '
+                 'Lua selects `local k` (6). witness_generic_for_header_closure (verified)'},
+        {'clause': 'C13.lookup.duplicate-names-later-wins',
+         'what': 'visit_child_scope walks the names of one statement FORWARD and the visitor stops at the first match: `local a, a = 1, 2  print(a)`: '
+                 'find_local_decl("a", 24) returns the first `a` (6); Lua binds the second (9). witness_duplicate_names (verified)'},
+    ],
     'mutants': [
         {'name': 'search-position-le', 'item': 'LuaDeclarationTree::search_scope_children',
          'pattern': r'decl_id\.position < position', 'repl': 'decl_id.position <= position', 'expect': r'search_scope_children:'},
@@ -522,6 +616,9 @@ UNIT = {
         {'name': 'repeat-until-does-not-see-body', 'item': 'LuaDeclarationTree::visit_visible_decls',
          'pattern': r'self\.visit_visible_decls\(child, position, true, f\);\s*return;', 'repl': '',
          'expect': r'visit_visible_decls.*C13\.visit\.model'},
+        {'name': 'recurse-on-the-same-scope', 'item': 'LuaDeclarationTree::visit_visible_decls',
+         'pattern': r'self\.visit_visible_decls\(parent, position, false, f\);(\s*\}\s*\}\s*\}\s*)$', 'repl': r'self.visit_visible_decls(scope, position, false, f);\1',
+         'expect': r'visit_visible_decls:(decreases|could-not-prove-termination)'},
         {'name': 'find-scope-end-inclusive', 'item': 'LuaDeclarationTree::find_scope',
          'pattern': r'\.contains\(position\)', 'repl': '.contains_inclusive(position)', 'expect': r'find_scope:'},
         {'name': 'find-visitor-any-name', 'item': 'LuaDeclarationTree::find_local_decl::visitor',
